@@ -356,6 +356,48 @@ func gen(rng *proto.RNG, tier string, shard, nshards int, w *bufio.Writer) {
 			emit(lines)
 		})
 	}
+	// (ii') a long burst handled in ONE runner activation (nothing in the protocol may depend on how many
+	// messages a runner has already handled): 330 user messages are queued, then the runner works through
+	// them; as soon as a second live thread shows up (only a defective mailbox dispatches one here) the two
+	// are run alternately, quantum by quantum, so that an overlap of handlers becomes visible
+	if shard == 0 {
+		for _, kind := range []string{"lockfree", "globalordered"} {
+			r := NewRun(kind)
+			lines := []string{"mailbox " + kind}
+			for id := 1; id <= 330; id++ {
+				sp := []string{"u", fmt.Sprint(id), "0"}
+				r.Spawn(sp)
+				lines = append(lines, "spawn "+strings.Join(sp, " "))
+			}
+			// the senders push and leave (lowest thread first); the first one dispatches the runner.
+			// Should a second runner ever be live: park the first one inside the handler (`h.in`), then
+			// drive the second one into the handler as well
+			phase := 0
+			for guard := 0; guard < 40000; guard++ {
+				live := r.Live()
+				if len(live) == 0 {
+					break
+				}
+				t := live[0]
+				if len(live) >= 2 && live[0] >= 330 {
+					switch phase {
+					case 0, 1:
+						t = live[phase]
+					default:
+						t = live[guard%2]
+					}
+				}
+				out := r.RunThread(t)
+				lines = append(lines, fmt.Sprintf("run %d", t))
+				if len(live) >= 2 && live[0] >= 330 && phase < 2 && strings.Contains(out, "@h.in") {
+					phase++
+				}
+			}
+			r.Close()
+			lines = append(lines, "drain")
+			emit(lines)
+		}
+	}
 	// (iii) random: more threads, late arrivals, uniformly random choice among live threads
 	nRandom := 40
 	if tier == "thorough" {
